@@ -81,6 +81,31 @@ def check_case(sink, c, o):  # noqa: C901
                 sink.check(_paths_eq(sp.paths(), spec.paths()) and [tuple(e.entry for e in a) for a in sp.accessors()] == [tuple(e.entry for e in a) for a in spec.accessors()]
                            and sp.num_nodes == spec.num_nodes and sp.num_leaves == spec.num_leaves,
                            f'spec-paths/{name}', f'the treespec returned by {name} has the same paths, accessors and counts', ident)
+        # the lazy iterator, consumed in pieces with other operations (on the same tree and treespec) in between, and two iterators
+        # over the same tree advanced alternately
+        it1, it2 = optree.tree_iter(c.tree, **kw), optree.tree_iter(c.tree, **kw)
+        got1, got2 = [], []
+        rng_it = gen.case_rng(c.seed, 'c03it', c.index)
+        for step in range(4 * len(leaves) + 8):
+            which = rng_it.random()
+            try:
+                if which < 0.45:
+                    got1.append(next(it1))
+                elif which < 0.8:
+                    got2.append(next(it2))
+                elif which < 0.9:
+                    optree.tree_flatten(c.tree, **kw)
+                    hash(spec)
+                else:
+                    spec.unflatten(leaves)
+                    optree.tree_leaves(c.tree, **kw)
+            except StopIteration:
+                pass
+        got1.extend(it1)
+        got2.extend(it2)
+        sink.check(_ids(got1) == _ids(leaves) and _ids(got2) == _ids(leaves), 'leaves/tree_iter-interleaved', 'a lazily, piecewise consumed tree_iter yields the identical leaves in the identical order', ident,
+                   lambda: (got1, got2, leaves))
+        sink.check(next(it1, 'done') == 'done' and next(it2, 'done') == 'done', 'tree_iter/exhausted-stays-exhausted', 'an exhausted iterator stays exhausted', ident)
         later_paths = spec.paths()
         later_acc = spec.accessors()
         sink.check(_paths_eq(paths_b, later_paths), 'paths/with_path-vs-spec', 'flatten_with_path paths equal treespec.paths()', ident, lambda: (paths_b, later_paths))
